@@ -5,7 +5,6 @@ import (
 	"strings"
 	"time"
 
-	sdk "github.com/cosmos/cosmos-sdk/types"
 	st "github.com/irismod/service/types"
 )
 
@@ -23,6 +22,8 @@ func priceGrid(tier string) (*PureEvidence, []Found) {
 		fmt.Sprintf(`[{"start_time":"%s","end_time":"%s","discount":"0.5"}]`, ts(10), ts(20)),
 		fmt.Sprintf(`[{"start_time":"%s","end_time":"%s","discount":"0.5"},{"start_time":"%s","end_time":"%s","discount":"0.8"}]`, ts(10), ts(20), ts(20), ts(30)),
 		fmt.Sprintf(`[{"start_time":"%s","end_time":"%s","discount":"0.3"},{"start_time":"%s","end_time":"%s","discount":"0.9"}]`, ts(10), ts(20), ts(25), ts(35)),
+		// windows listed newest first: the unmodified module refuses such a pricing (counted, not priced)
+		fmt.Sprintf(`[{"start_time":"%s","end_time":"%s","discount":"0.9"},{"start_time":"%s","end_time":"%s","discount":"0.3"}]`, ts(25), ts(35), ts(10), ts(20)),
 	}
 	blockTimes := []int{5, 10, 15, 19, 20, 22, 25, 30, 34, 35, 40}
 	volLayouts := []string{
@@ -47,11 +48,12 @@ func priceGrid(tier string) (*PureEvidence, []Found) {
 				// a world holding exactly this binding, created by real messages
 				s := rig.Genesis(ps, []Funding{{O1, 5000}, {C1, 10}}, allAccounts)
 				w := rig.Restore(s)
-				for _, m := range []sdk.Msg{st.NewMsgDefineService("a", "", nil, AU, "", schemasOK),
-					st.NewMsgBindService("a", P1, coins(2000), text, 1, "{}", O1)} {
-					if res := w.DeliverMsg(m, nil, 0); !res.OK() {
-						panic("price grid setup: " + res.ErrString() + " for " + text)
-					}
+				if res := w.DeliverMsg(st.NewMsgDefineService("a", "", nil, AU, "", schemasOK), nil, 0); !res.OK() {
+					panic("price grid setup: " + res.ErrString())
+				}
+				if res := w.DeliverMsg(st.NewMsgBindService("a", P1, coins(2000), text, 1, "{}", O1), nil, 0); !res.OK() {
+					ev.Counters["pricing-refused-by-module"]++
+					continue
 				}
 				binding, ok := rig.sk.GetServiceBinding(w.ctx, "a", P1)
 				if !ok {
